@@ -291,3 +291,18 @@ package hackpadfs
 //@                      world() == old(worldAfterW("hackpadfs.Stat", losW(fs, name), fs, name)))
 //@   nopanic
 
+
+// MkdirAll: the native and mount branches are exact; the fallback (a loop of Mkdir / Stat calls over the prefixes of the
+// path) is only proved to refuse invalid names before touching anything, to return typed errors and not to panic.
+//@ func MkdirAll(fs FS, path string, perm FileMode) (err error)
+//@   props C06 C07 C08 C04 C05
+//@   deterministic
+//@   requires fs != nil
+
+//@   loop 1 invariant "bounds" 0 <= i && i <= len(path) && VP(path) && fs != nil && !implements(fs, MkdirAllFS) && !implements(fs, MountFS)
+//@   ensures "native" implies(implements(fs, MkdirAllFS), err == old(ret("hackpadfs.(MkdirAllFS).MkdirAll", 0, fs, path, perm)) &&
+//@                      world() == old(worldAfter("hackpadfs.(MkdirAllFS).MkdirAll", fs, path, perm)))
+//@   ensures "mount" implies(!implements(fs, MkdirAllFS) && implements(fs, MountFS), translated(err, old(ret("hackpadfs.MkdirAll", 0, mountOf(fs, path), subOf(fs, path), perm)), path, old(subOf(fs, path))) &&
+//@                      world() == old(worldAfter("hackpadfs.MkdirAll", mountOf(fs, path), subOf(fs, path), perm)))
+//@   ensures "gate" implies(!implements(fs, MkdirAllFS) && !implements(fs, MountFS) && !VP(path), isPathError(err) && pathOf(err) == path && errIs(err, ErrInvalid) && world() == old(world()))
+//@   nopanic
